@@ -375,11 +375,13 @@ def oracle_cg(ctx, c, got, case):
         tot_cg = sum(sv[s * ng + g] for g in range(ng))
         mag = sum(abs(frac(c["state"][s * n + i])) for i in range(n)) * si_qty(c.get("stsys", c["ssys"])[2])
         if not close(tot_cg, tot_fine, mag=mag, rel=1e-12):
-            ctx.violation(key0 + ":species-total", "species %d: coarse total %s, fine total over retained cells %s (SI)" % (s, fstr(tot_cg), fstr(tot_fine)),
+            ctx.violation(key0 + ":species-total", "species %d: coarse total %s, fine total over retained cells %s (SI; relative difference %s, amounts are summed exactly)" % (
+                              s, fstr(tot_cg), fstr(tot_fine), fstr(abs(tot_cg - tot_fine) / (mag or 1))),
                           case, impl=fstr(tot_cg), expected=fstr(tot_fine))
         for g in range(ng):
             if not close(sv[s * ng + g], bf["state"][s][g], mag=mag, rel=1e-12):
-                ctx.violation(key0 + ":group-amount", "species %d group %d holds %s, its members hold %s (SI)" % (s, g, fstr(sv[s * ng + g]), fstr(bf["state"][s][g])),
+                ctx.violation(key0 + ":group-amount", "species %d group %d holds %s, its members hold %s (SI; relative difference %s)" % (
+                                  s, g, fstr(sv[s * ng + g]), fstr(bf["state"][s][g]), fstr(abs(sv[s * ng + g] - bf["state"][s][g]) / (mag or 1))),
                               case, impl=fstr(sv[s * ng + g]), expected=fstr(bf["state"][s][g]))
                 break
         flags = [got["chem"][s * ng + g] for g in range(ng)]
@@ -513,7 +515,10 @@ def uncg_case(ctx, rng, c, cgsys):
     got_map = None if out.cgmap is None else list(out.cgmap)
     if str(out.data.units) != str(traj.data.units) or got_map != list(im) or out.system.space.size() != n \
             or [float(x) for x in out.t.value] != ts:
-        ctx.violation("uncg:wrapping", "un-coarse-grained trajectory does not carry the units / times / fine system / map", case,
+        ctx.violation("uncg:wrapping", "un-coarse-grained trajectory does not carry the coarse trajectory's units / times / the fine system / the map: "
+                      "data units %s (coarse trajectory: %s), map %s, %d cells, times %s" % (
+                          out.data.units, traj.data.units, "kept" if got_map == list(im) else "changed", out.system.space.size(),
+                          "kept" if [float(x) for x in out.t.value] == ts else "changed"), case,
                       impl={"units": str(out.data.units), "cgmap": got_map})
     op = {"op": "uncoarsegrain", "N": N, "ns": ns, "ncg": ng, "nf": n, "im": list(im), "cg": [rstr(v) for v in data]}
     # model fidelity outside the property's domain: maps the function itself does not validate (entries below -1 wrap like
